@@ -16,6 +16,13 @@ def jobs(tier):
                      assumes=["message path and rule path/path_namespace values are valid object paths (guaranteed by C01 and by bus_match_rule_parse)"],
                      bounds=f"one rule, all 9 flag bits symbolic, strings <=3 bytes (paths <=4), {narg} arg slot(s): rule value <=2 bytes incl. empty, kinds exact/path/namespace; message arg <=3 bytes incl. empty, type s/o/other",
                      shape=f"matcher, {narg} arg slot(s)", cost=narg * 3))
+    for l0, l1 in ((0, 0), (1, 0), (0, 1), (1, 1), (2, 0), (2, 1), (1, 2)):
+        J.append(Job(name=f"b.recipients.L{l0}{l1}", group="C07.b", harness="harness/C07_recipients.c", defines={"L0": l0, "L1": l1}, real=REAL, env=ENV,
+                     checks="assert", unwind=8, unwindset=["strcmp.0:8"], timeout=600, tiers=("quick", "thorough") if l0 + l1 <= 2 else ("thorough",),
+                     encodes=["bus_matchmaker_get_recipients", "get_recipients_from_list", "bus_matchmaker_get_rules", "match_rule_matches"],
+                     stubs=["stamp pair = documented test-and-set", "per-interface hash pools empty"],
+                     bounds=f"{l0} rule(s) without type + {l1} rule(s) for the message's type, owners among 3 connections, member key / eavesdrop flag symbolic",
+                     shape=f"recipient set, pools {l0}+{l1}", cost=1 + l0 + l1))
     for mode, nm, fn in ((0, "remove_by_value", "bus_matchmaker_remove_rule_by_value"), (1, "disconnected", "bus_matchmaker_disconnected")):
         for l in (0, 1, 2, 3):
             if mode == 1 and l == 0: continue
